@@ -194,6 +194,29 @@ Theorem C03_verify_at_enqueue_refuted :
 Proof. exact verify_at_enqueue_refuted. Qed.
 Print Assumptions C03_verify_at_enqueue_refuted.
 
+(** ... and whatever was asked before: the pool's answer is a FUNCTION of the committed state (bound
+    rule, chain record, trust root), the IBTP (its whole content) and the proof at the time of the
+    question, for every node history - as long as the pool remembers no verdicts *)
+Theorem C03_verdict_is_function :
+  forall (H : N -> N) (digest : N -> N -> N) (rule_validate : N -> N -> N -> N -> N -> option bool)
+         (recover : N -> N -> option N),
+  forall c, d_verdict_cache c = false ->
+  forall evs n, c_run H digest rule_validate recover c n evs = c_spec H digest rule_validate recover (cn_state n) evs.
+Proof. exact verdict_is_function. Qed.
+Print Assumptions C03_verdict_is_function.
+
+(** a verdict cache keyed by (rule address, IBTP name from-to-index, proof hash): expected
+    refutation - a different IBTP with the same name and the same public proof bytes rides on the
+    verdict of the genuine one, until the node restarts *)
+Theorem C03_verdict_cache_refuted :
+  c_run c_H c_digest c_rule c_recover {| d_verdict_cache := true |} {| cn_state := st_rule 0; cn_cache := [] |} cache_hist
+  = [None; Some VOk; Some VOk; None; Some (VErr 5)] /\
+  c_verify (st_rule 3) (ib_c 8000) (PdBytes 2007001 None) = VErr 5 /\
+  c_run c_H c_digest c_rule c_recover {| d_verdict_cache := false |} {| cn_state := st_rule 0; cn_cache := [] |} cache_hist
+  = [None; Some VOk; Some (VErr 5); None; Some (VErr 5)].
+Proof. exact verdict_cache_refuted. Qed.
+Print Assumptions C03_verdict_cache_refuted.
+
 (** if every available rule carries the Master flag, the consulted rule is the master rule; the
     judge checks "accepted => the rule with the Master flag accepts" on implementation traces with
     the rule list read back from the real RuleManager state, so a flow that leaves a second,
